@@ -1401,7 +1401,10 @@ class Interp:
             return False
         if self.U.casc_delete:
             closure = [o] + self.model.descendants(o)
-            if any(g.state == "G" and g.ghost_of in closure for g in self.model.objs):
+            # (a delete-marked member is harmless unless an autoflush in the middle of the cascade walk turns it
+            # into a deleted one: only the self-referential family lazy-loads while walking)
+            risky = "DG" if (self.U.fam == "node" and self.U.cfg["autoflush"]) else "G"
+            if any(g.state in risky and g.ghost_of in closure for g in self.model.objs):
                 if not self.pinned:
                     self.ctx.exclude("delete cascade over a loaded collection that still holds an object deleted earlier in the transaction (known finding: it is revived by a savepoint rollback)")
                     return False
